@@ -50,7 +50,12 @@ Step ==
                        V("an EAGAIN sequence of openat2 ended with neither the unfaulted outcome nor a safety violation", e))
            b7 == AddIf(b6, e.kind = "eagain" /\ fired /\ e.n >= Persistent /\ e.errkind # "SAFETY" /\ e.outcome # "panic" /\ e.outcome # "hang",
                        V("persistent EAGAIN did not surface as a safety violation", e))
-           b8 == AddIf(b7, e.kind = "eagain" /\ fired /\ e.errkind = "EAGAIN", V("raw EAGAIN of openat2 surfaced to the caller", e))
+           \* the measured bound of the operation's first lookup (e.bound > 0): fewer EAGAINs are ridden out, that many are not
+           b7a == AddIf(b7, e.kind = "eagain" /\ fired /\ e.bound > 0 /\ e.n >= e.bound /\ e.errkind # "SAFETY" /\ e.outcome \notin {"panic", "hang"},
+                        V("as many consecutive EAGAINs as the lookup's own retry bound did not surface as a safety violation (the aborted lookup was swallowed)", e))
+           b7b == AddIf(b7a, e.kind = "eagain" /\ fired /\ e.bound > 0 /\ e.n < e.bound /\ e.base_ok /\ ~(e.outcome = "ok" /\ e.same_as_base) /\ e.outcome \notin {"panic", "hang"},
+                        V("fewer consecutive EAGAINs than the lookup's own retry bound were not ridden out", e))
+           b8 == AddIf(b7b, e.kind = "eagain" /\ fired /\ e.errkind = "EAGAIN", V("raw EAGAIN of openat2 surfaced to the caller", e))
        IN  bad' = b8
 
 Spec == Init /\ [][Step]_vars
